@@ -107,12 +107,17 @@ STEREO = ['C/C=C(/C)CC', 'C/C=C(\\C)CC', 'C/C(CC)=C(\\C)CCC', 'C/C(CC)=C(/C)CCC'
           'C/C=C(/CC)CCC', 'C/C=C(\\CC)CCC', 'CC/C(C)=C(/C)CC', 'C/C=C/C=C\\C', 'F/C=C(/C)CC']
 
 
+# radicals next to atoms that carry neighbour-count constraints inside correction descriptors (ortho, cis, gauche)
+RADICALS = ['[CH2]c1ccccc1C', 'C[CH]c1ccccc1C', '[CH2]C(C)=CC', '[CH2]C(C)=C(C)C', 'CC(=[CH])C(C)(C)C', '[CH2]C(C)C(C)C', 'C[C](C)C(C)C',
+            '[CH2]/C=C\\C', 'C[CH]C=CC', '[CH2]c1ccccc1', 'Cc1ccccc1[CH]C', '[CH2]C(C)(C)CC(C)(C)C', 'CC(C)[C](C)C', '[CH2]C=C(C)C']
+
+
 def decompose_jobs(ctx, n_per_lib, graph=True, as_mol=False):
     jobs = []
     libs = list(gen.SHIPPED)
     for li, lib in enumerate(libs):
         from props import c03, c04
-        extra = STEREO if lib in ('BensonGA', 'PPY') else []
+        extra = (STEREO + RADICALS) if lib in ('BensonGA', 'PPY') else []
         pool = list(dict.fromkeys(c03.EXTRA.get(lib, [])[:10] + c04.STRESS.get(lib, [])[:10] + extra
                                   + molgen.pool_for_lib(ctx.rng, lib, n_per_lib, with_bad=0.12)))
         step = 8
